@@ -93,17 +93,19 @@ func gocqlGoroutines(label string) (int, []string, string) {
 // waitNoGocqlGoroutines polls until no labelled goroutine is inside gocql (event: the set becomes empty) or
 // the watchdog expires; the wall clock decides nothing but when to give up and report what is still there.
 func waitNoGocqlGoroutines(label string, watchdog time.Duration) (int, string, string) {
-	dl := time.Now().Add(watchdog)
-	for {
-		n, fns, raw := gocqlGoroutines(label)
-		if n == 0 {
-			return 0, "-", ""
+	n, fns, raw := 0, []string(nil), ""
+	last := time.Time{}
+	if patient(watchdog, func() bool {
+		if !last.IsZero() && time.Since(last) < 5*time.Millisecond {
+			return false // a goroutine profile stops the world: not more often than every 5 ms
 		}
-		if time.Now().After(dl) {
-			return n, strings.Join(fns, ","), raw
-		}
-		time.Sleep(5 * time.Millisecond)
+		n, fns, raw = gocqlGoroutines(label)
+		last = time.Now()
+		return n == 0
+	}) {
+		return 0, "-", ""
 	}
+	return n, strings.Join(fns, ","), raw
 }
 
 // pendingFills: labelled goroutines that have not run yet (no frames) or whose innermost gocql frame is
